@@ -68,14 +68,17 @@ def _plain(v):
     return v
 
 
-def race(V, build, calls, tag):
+NARROW = sched.code_objects(BaseParser.resolve_forward_refs, getattr(BaseParser, '_resolve_forward_refs', None))
+
+
+def race(V, build, calls, tag, watched=None, preemptions=None):
     """build() -> namespace of a fresh system; calls = [f(ns) -> thunk result]; concurrent vs alone"""
     with V.notrace():
         systems = [build() for _ in range(len(calls) + 1)]
     alone = [outcome(lambda c=c, ns=systems[i + 1]: c(ns)) for i, c in enumerate(calls)]
     ns = systems[0]
     thunks = [(lambda c=c: outcome(lambda: c(ns))) for c in calls]
-    results, trace = sched.run_schedule(V, thunks, WATCHED, V.T(1, 2))
+    results, trace = sched.run_schedule(V, thunks, watched or WATCHED, preemptions or V.T(1, 2))
     got = [r[1] if r and r[0] == 'ok' else ('crash', 'worker', repr(r)) for r in results]
     for m in systems:
         sys.modules.pop(getattr(m.get('__mod__'), '__name__', ''), None) if isinstance(m, dict) else None
@@ -210,12 +213,39 @@ def convert_builtin(ns):
 
 @ob('registry/register-vs-convert', marks=['preempted'], budget=(150, 900), per_path=(30, 60),
     bounds='thread 0 registers a converter for a fresh class and converts with it, thread 1 converts builtin types (int, List[int], '
-           'date) through the same shared registry and cache; and two threads each registering their own class and converting; '
+           'date) through the same shared registry and cache; two threads each registering their own class and converting; a converter '
+           'replaced while another thread converts to that type (later conversions must use the new one); '
            'every schedule with at most 1 preemption (2 thorough) plus the free hand-over when a thread finishes at watched lines of TypeRegistry.register / resolve')
 def register_vs_convert(V):
-    variant = V.pick('variant', ['register-vs-builtin', 'register-vs-register', 'register-base-vs-convert-subclass'])
+    variant = V.pick('variant', ['register-vs-builtin', 'register-vs-register', 'register-base-vs-convert-subclass', 'override-vs-convert'])
     try:
-        if variant == 'register-vs-builtin':
+        if variant == 'override-vs-convert':
+            # a converter is replaced at run time while another thread converts to that type: the racing conversion may see
+            # either converter, every conversion after register() returned sees the new one
+            def build_o():
+                ns = build_s2()
+
+                def conv(transformer, data, t):
+                    return t(('old', data))
+                utype.register_transformer(ns['Money'])(conv)
+                utype.type_transform(1, ns['Money'])          # (fills the cache)
+                return ns
+
+            def use(ns):
+                return utype.type_transform(5, ns['Money']).v
+            with V.notrace():
+                c = build_o()
+            thunks = [lambda: outcome(lambda: reg_and_convert(c, 'Money', 'new')), lambda: outcome(lambda: use(c))]
+            results, trace = sched.run_schedule(V, thunks, WATCHED, V.T(1, 2))
+            got = tuple(r[1] if r and r[0] == 'ok' else ('crash', repr(r)) for r in results)
+            post = outcome(lambda: use(c))
+            _restore(c)
+            V.check(got[0] == ('ok', ('new', 5)) and got[1] in (('ok', ('old', 5)), ('ok', ('new', 5))), 'concurrent:registry:not-linearizable',
+                    lambda: 'schedule %r: got %r' % (trace, got))
+            V.check(post == ('ok', ('new', 5)), 'concurrent:registry:stale-after-register',
+                    lambda: 'schedule %r: a conversion made after register() returned and both threads finished gives %r (threads: %r)' % (trace, post, got))
+            V.cover('preempted' if any(t[0] == 'preempt' for t in trace) else 'sequential')
+        elif variant == 'register-vs-builtin':
             race(V, build_s2, [lambda ns: reg_and_convert(ns, 'Money', 'm'), convert_builtin], 'registry')
         elif variant == 'register-vs-register':
             race(V, build_s2, [lambda ns: reg_and_convert(ns, 'Money', 'm'), lambda ns: reg_and_convert(ns, 'Other', 'o')], 'registry')
@@ -234,6 +264,7 @@ def register_vs_convert(V):
             with V.notrace():
                 a, b, c = build(), build(), build()
             first = (outcome(lambda: reg_and_convert(a, 'Money', 'm')), outcome(lambda: sub(a)))
+            post_want = outcome(lambda: sub(a))
             _restore(a)
             second_sub = outcome(lambda: sub(b))
             second = (outcome(lambda: reg_and_convert(b, 'Money', 'm')), second_sub)
@@ -241,7 +272,11 @@ def register_vs_convert(V):
             thunks = [lambda: outcome(lambda: reg_and_convert(c, 'Money', 'm')), lambda: outcome(lambda: sub(c))]
             results, trace = sched.run_schedule(V, thunks, WATCHED, V.T(1, 2))
             got = tuple(r[1] if r and r[0] == 'ok' else ('crash', repr(r)) for r in results)
+            post = outcome(lambda: sub(c))
             _restore(c)
+            # once register() has returned, every later conversion is served by the new converter, whatever raced with it
+            V.check(post == post_want, 'concurrent:registry:stale-after-register',
+                    lambda: 'schedule %r: a conversion made after both threads finished returns %r, after a sequential run %r' % (trace, post, post_want))
             V.check(got in (first, second), 'concurrent:registry:not-linearizable',
                     lambda: 'schedule %r: got %r, sequential orders give %r or %r' % (trace, got, first, second))
             V.cover('preempted' if any(t[0] == 'preempt' for t in trace) else 'sequential')
